@@ -1,5 +1,5 @@
 # props.py — per-property registry: streams, monitors, non-triviality rule.
-import os, random, collections, shutil
+import os, random, collections, shutil, subprocess
 from uvlib import *
 import gen, monitors
 from gen import PFX
@@ -161,6 +161,199 @@ def trig_banned_offer(o, pre, st):
     return o['kind'] in ('failure', 'init') and p['cb'] is not None
 
 
+
+def build_C05(ctx, tier, rnd):
+    al = gen.Alphabet(ctx)
+    hs = []
+    nmut = 60 if tier == 'quick' else 1500
+    # byte-level mutants of a genuine patch: flip / truncate / extend, at the zstd level and at the bidiff level
+    dl = ctx.blobs['dl2']
+    raw = ctx.blobs['raw2']
+    muts = []
+    for k in range(nmut):
+        kind = rnd.choice(['flip', 'trunc', 'ext', 'rawflip', 'rawtrunc'])
+        if kind == 'flip':
+            b = bytearray(dl); j = rnd.randrange(len(b)); b[j] ^= 1 << rnd.randrange(8); muts.append(('z', bytes(b)))
+        elif kind == 'trunc':
+            muts.append(('z', dl[:rnd.randrange(len(dl))]))
+        elif kind == 'ext':
+            muts.append(('z', dl + bytes(rnd.randrange(256) for _ in range(rnd.randrange(1, 9)))))
+        elif kind == 'rawflip':
+            b = bytearray(raw); j = rnd.randrange(len(b)); b[j] ^= 1 << rnd.randrange(8); muts.append(('r', bytes(b)))
+        else:
+            muts.append(('r', raw[:rnd.randrange(len(raw))]))
+    tmp = ctx.tmp
+    for k, (lvl, data) in enumerate(muts):
+        name = 'mut%d' % k
+        if lvl == 'r':
+            open(os.path.join(tmp, 'r.in'), 'wb').write(data)
+            subprocess.run([UVH, 'zenc', os.path.join(tmp, 'r.in'), os.path.join(tmp, 'r.out')], check=True, capture_output=True)
+            data = open(os.path.join(tmp, 'r.out'), 'rb').read()
+        ctx.add_blob(name, data)
+        ctx.add_zdec_real(name)
+    # wrong base: a patch built against another base
+    other = bytes(reversed(ctx.base))
+    open(os.path.join(tmp, 'ob.bin'), 'wb').write(other)
+    open(os.path.join(tmp, 'on.bin'), 'wb').write(ctx.p['2']['new'])
+    subprocess.run([UVH, 'mkpatch', os.path.join(tmp, 'ob.bin'), os.path.join(tmp, 'on.bin'), os.path.join(tmp, 'op')], check=True, capture_output=True)
+    ctx.add_blob('wrongbase', open(os.path.join(tmp, 'op.patch'), 'rb').read())
+    ctx.add_zdec_real('wrongbase')
+    names = ['mut%d' % k for k in range(len(muts))] + ['wrongbase', 'empty', 'junkdl']
+    ctx.zdec.append(('empty', 'empty'))
+    prefixes = [PFX['empty'], PFX['good1'], PFX['good1pend2'], PFX['good1boot2']]
+    for j, nm in enumerate(names):
+        pre = prefixes[j % len(prefixes)]
+        hs.append(('c05m%d' % j, [al.init] + al.seq(pre) + [op_update(ctx, 2, dl='@' + nm), 'op nextnum', 'op curnum'] + al.seq(['u2', 'q'])))
+    # hash strings
+    h = ctx.p['2']['hash']
+    hashes = [h.upper(), h[:-1], h + '0', h + '00', '', 'zz' + h[2:], h[:32], '0' * 64, ' ' + h, h.replace('a', 'A', 1),
+              ctx.p['3']['hash'], 'g' * 64, h[:-2] + 'ZZ', '0x' + h, h + '\n']
+    if tier == 'thorough':
+        for _ in range(40):
+            b = list(h); j = rnd.randrange(len(b)); b[j] = rnd.choice('0123456789abcdefABCDEFxyz '); hashes.append(''.join(b))
+    for j, hh in enumerate(hashes):
+        pre = prefixes[j % len(prefixes)]
+        hs.append(('c05h%d' % j, [al.init] + al.seq(pre) + [op_update(ctx, 2, hash=hh), 'op nextnum'] + al.seq(['u2', 'q'])))
+    return hs
+
+
+def trig_update(o, pre, st):
+    return o['kind'] == 'update' and o.get('resp') is not None and o['resp']['patch'] is not None
+
+
+def build_C06(ctx, tier, rnd):
+    al = gen.Alphabet(ctx)
+    hs = []
+    fails = ['ckerr', 'uperr', 'udl2', 'udl3', 'uj2', 'uh2', 'upnone',
+             ]
+    al.ops['contra'] = ['op update - %s err' % resp(True, None, None)]
+    al.ops['contra_rb'] = ['op update - %s err' % resp(True, None, [2])]
+    al.ops['navail'] = [op_update(ctx, 2, avail=False)]
+    fails += ['contra', 'contra_rb', 'navail']
+    depth = 2 if tier == 'quick' else 3
+    pres = [PFX[k] for k in ('empty', 'pend1', 'boot1', 'good1', 'good1pend2', 'good1boot2', 'good1bad2', 'good2pend1')]
+    if tier == 'thorough':
+        pres += [tuple(x) for x in __import__('itertools').product(['u1', 's', 'ok', 'fail', 'R', 'u2'], repeat=3)]
+    for pre in pres:
+        for f in fails:
+            for g in (fails if tier == 'thorough' else ['ckerr', 'udl2', 'uj2']):
+                hs.append(('c06_%d' % len(hs), [al.init] + al.seq(pre) + al.seq([f, 'q', 'c', g, 'u2', 'q', 'u3', 'q'])))
+    return hs
+
+
+def build_C07(ctx, tier, rnd):
+    hs = []
+    h2 = ctx.p['2']['hash']
+    good = ctx.p['2']['sig']
+    import base64 as b64
+    rawsig = b64.b64decode(good)
+    variants = {
+        'valid': good, 'absent': None, 'trunc': good[:-8], 'empty': '',
+        'urlsafe': b64.urlsafe_b64encode(rawsig).decode(), 'nopad': good.rstrip('='),
+        'otherkey': sign(h2, which=2), 'othermsg': ctx.p['3']['sig'], 'notb64': '!!!not base64!!!',
+        'flipped': b64.b64encode(bytes([rawsig[0] ^ 1]) + rawsig[1:]).decode(),
+    }
+    ctx.sigs.append((KEY2, h2, variants['otherkey']))
+    keys = {'k1': KEY1, 'kbad': 'not-base64-key!!', 'kjunk': b64.b64encode(b'this is not a DER key').decode(), 'k2': KEY2}
+    for kn, key in keys.items():
+        al = gen.Alphabet(ctx, key=key)
+        for vn, sg in variants.items():
+            for pk in ('empty', 'good1', 'good1pend2') if kn == 'k1' else ('empty', 'good1'):
+                ops = [al.init] + al.seq(PFX[pk]) + [op_update(ctx, 2, sig=sg), 'op nextnum', 'op nextpath', 'op start', 'op curnum', 'op success', 'op kill', al.init, 'op nextnum']
+                hs.append(('c07_%s_%s_%s' % (kn, vn, pk), ops))
+        # tampering after a valid install, same size and different size, then every continuation
+        for dm in ('dS2', 'dT2', 'dE2', 'dF2', 'dD2'):
+            for cont in (('q',), ('s', 'c'), ('R', 'q'), ('p', 's', 'ok', 'q')):
+                for pk in ('empty', 'good1'):
+                    ops = [al.init] + al.seq(PFX[pk]) + [op_update(ctx, 2, signed=True)] + al.seq([dm]) + al.seq(cont) + ['op nextpath']
+                    hs.append(('c07t_%s_%d' % (kn, len(hs)), ops))
+    al = gen.Alphabet(ctx, key=KEY1)
+    labels = ['q', 'p', 's', 'ok', 'fail', 'R', 'u1', 'u2', 'u3', 'uns2', 'dS1', 'dS2', 'dT2', 'rb1', 'c']
+    hs += gen.random_walks(al, labels, [2] * len(labels), 100 if tier == 'quick' else 3000, (6, 25), rnd, name='c07r')
+    hs += gen.exhaustive(al, ['q', 's', 'ok', 'R', 'u1', 'uns2', 'u2', 'dS1', 'dS2'], 3 if tier == 'quick' else 4, name='c07x')
+    return hs
+
+
+def build_C08(ctx, tier, rnd):
+    hs = []
+    al = gen.Alphabet(ctx)
+    depth = 3 if tier == 'quick' else 4
+    olds = list(__import__('itertools').product(['u1', 'u2', 's', 'ok', 'fail', 'R', 'rb1'], repeat=depth))
+    olds += [PFX[k] for k in PFX]
+    for old in olds:
+        for rv in ('RV', 'RV0'):
+            for tail in (('q', 'c', 'p'), ('c', 'u1', 'q'), ('u2', 'q', 's', 'c')):
+                hs.append(('c08_%d' % len(hs), [al.init] + al.seq(old) + al.seq([rv]) + al.seq(tail)))
+    # queued events and bans of the old release must not reach the new one
+    for old in (('u1', 's', 'fail'), ('u1', 's', 'R'), ('u1', 's', 'ok', 'u2', 'R', 's', 'fail')):
+        hs.append(('c08e_%d' % len(hs), [al.init] + al.seq(old) + al.seq(['RV', 'upnone', 'u1', 'q', 'u2', 'q'])))
+    return hs
+
+
+def trig_relchange(o, pre, st):
+    return o['kind'] == 'init' and isinstance(pre['sj'], dict) and pre['sj']['rel'] != o['rel'] and \
+        (pstate(pre)['nb'] is not None or pstate(pre)['bad'] or pre['sj']['evq'])
+
+
+def build_C14(ctx, tier, rnd):
+    hs = []
+    al = gen.Alphabet(ctx, chan='beta')
+    al.ops['i2same'] = [al.init]
+    al.ops['i2key'] = [op_init(key=KEY1)]
+    al.ops['i2nopath'] = [op_init(paths=False)]
+    al.ops['i2chan'] = [op_init(chan='other', app='app-2')]
+    seconds = ['i2', 'i2bad', 'i2same', 'i2key', 'i2nopath', 'i2chan']
+    depth = 3 if tier == 'quick' else 4
+    base_l = ['u1', 's', 'ok', 'fail', 'u2', 'q']
+    for combo in __import__('itertools').product(base_l, repeat=depth):
+        for pos in range(depth + 1):
+            sec = seconds[(len(hs)) % len(seconds)]
+            seq = list(combo[:pos]) + [sec] + list(combo[pos:]) + ['upnone', 'q', 'c']
+            hs.append(('c14_%d' % len(hs), [al.init] + al.seq(seq)))
+    return hs
+
+
+def trig_init2(o, pre, st):
+    return o['kind'] == 'init' and st['out'] == 'false'
+
+
+def build_C20(ctx, tier, rnd):
+    hs = []
+    strs = ['stable', 'beta', 'Ünï-çødé ✓', 'a b', 'x' * 40, '1.2.3+4', 'chan/with:odd#chars', '日本語']
+    n = 40 if tier == 'quick' else 600
+    for i in range(n):
+        ychan = rnd.choice([None, None] + strs)
+        app = rnd.choice(['app-1', 'Äpp', 'a' * 30, strs[2]])
+        rel = rnd.choice(['1.0.0', '1.0.0+7', '9', strs[7]])
+        init = op_init(rel=rel, app=app, chan=ychan)
+        ops = [init]
+        for _ in range(rnd.randrange(3, 12)):
+            ch = rnd.choice([None, None] + strs)
+            k = rnd.randrange(8)
+            if k == 0:
+                ops.append(op_check(ctx, 2, ch=ch))
+            elif k == 1:
+                ops.append(op_update(ctx, rnd.choice([1, 2, 3]), ch=ch))
+            elif k == 2:
+                ops.append(op_update_nopatch(ch=ch))
+            elif k == 3:
+                ops.append('op check %s err' % hx(ch))
+            elif k == 4:
+                ops += ['op start', 'op failure']
+            elif k == 5:
+                ops += ['op start', 'op success']
+            elif k == 6:
+                ops += ['op kill', init]
+            else:
+                ops.append(op_init(rel='7.7', app='intruder', chan='leak'))
+        hs.append(('c20_%d' % i, ops))
+    return hs
+
+
+def trig_request(o, pre, st):
+    return any(x.startswith('C:') for x in st['net'])
+
+
 def mk(build, mons, trig, rule, **kw):
     d = dict(mons=mons, run=lambda pid, tier, seed, model_ok=True: run_lifecycle(pid, tier, seed, build, mons, trig, rule, model_ok=model_ok))
     d.update(kw)
@@ -168,6 +361,21 @@ def mk(build, mons, trig, rule, **kw):
 
 
 PROPS = {
+    'C05': mk(build_C05, [monitors.mon_C05, monitors.mon_healthy], trig_update,
+              'byte-level mutants (flip/truncate/extend at zstd and at bidiff level) of a genuine patch, wrong base, empty/junk downloads, hash-string variants, each from 4 lifecycle states followed by a genuine install; non-trivial = distinct (state, update-with-offer)',
+              assumptions=['zstd decoder output (incl. partial output on failure) is an oracle computed by the zstd library outside the updater']),
+    'C06': mk(build_C06, [monitors.mon_C05, monitors.mon_healthy], trig_update,
+              'every injected failure (check error, download error, junk download, bad hash, contradictory response, not-available) x2 from lifecycle states, followed by healthy updates; non-trivial = distinct (state, update-with-offer)',
+              assumptions=['transport layer (reqwest) not modelled: failures are injected at the network callbacks']),
+    'C07': mk(build_C07, [lambda c, o, s: monitors.mon_C01(c, o, s)], trig_handout,
+              '10 signature variants x 4 configured keys x lifecycle states; same-size/different-size tampering x continuations; exhaustive + random walks under a key; non-trivial = distinct (state, query/start with a selection)',
+              assumptions=['RSA verification (ring) and base64 are oracles; signature table built with openssl']),
+    'C08': mk(build_C08, [monitors.mon_C08, monitors.mon_C02], trig_relchange,
+              'every depth-k old-release history x {upgrade, downgrade} x query/update tails; non-trivial = distinct (state, init) where the old release had patches, bans or queued events'),
+    'C14': mk(build_C14, [monitors.mon_C14], trig_init2,
+              'second init (6 parameter variants) at every position of exhaustive depth-k histories, then requests; non-trivial = distinct (state, rejected init)'),
+    'C20': mk(build_C20, [monitors.mon_C20], trig_request,
+              'random YAML-channel/app/release strings (unicode included) x random per-call channels x interleaved calls, restarts and intruding second inits; non-trivial = distinct (state, call that sent a request)'),
     'C01': mk(build_C01, [monitors.mon_C01], trig_handout,
               'damage op at every position of lifecycle prefixes x continuations, exhaustive small alphabet, guided random walks with stale-file damage; '
               'non-trivial = distinct (abstract disk state, op) pairs where a query/start ran with a selected next boot patch',
